@@ -25,7 +25,7 @@ EntryBytes(kind, es, i, offs, secAsz, le) ==
 
 (* sizes do not depend on the offsets (all offset fields are fixed-width) *)
 EntrySize(kind, es, i, secAsz) ==
-    Len(EntryBytes(kind, es, i, [j \in 1..Len(es) |-> IF j = i THEN 4096 ELSE 0], secAsz, TRUE))
+    Len(EntryBytes(kind, es, i, Tup([j \in 1..Len(es) |-> IF j = i THEN 4096 ELSE 0]), secAsz, TRUE))
 
 RECURSIVE OffsAcc(_, _, _, _, _)
 OffsAcc(kind, es, secAsz, i, acc) ==
@@ -51,14 +51,14 @@ WellFormedRefs(kind, es) ==
 (* meaning of every entry at its offset (computed once per section):       *)
 (* CIEs first, then the FDEs bound to the meaning of the CIE they name     *)
 Meanings(kind, es, offs, secAsz, B) ==
-    LET cms == [i \in DOMAIN es |-> IF es[i].t = "cie" THEN CieMeaning(kind, es[i], offs[i], secAsz, B)
-                                    ELSE [ok |-> FALSE, err |-> "-"]]
-    IN [i \in DOMAIN es |->
+    LET cms == Tup([i \in DOMAIN es |-> IF es[i].t = "cie" THEN CieMeaning(kind, es[i], offs[i], secAsz, B)
+                                        ELSE [ok |-> FALSE, err |-> "-"]])
+    IN Tup([i \in DOMAIN es |->
           IF es[i].t = "cie" THEN cms[i]
           ELSE IF es[i].t = "fde" THEN
                [ok |-> TRUE, rec |-> FdeMeaning(kind, es[i], es[es[i].cie], cms[es[i].cie],
                                                 offs[i], offs[es[i].cie], secAsz, B)]
-          ELSE [ok |-> TRUE, rec |-> [t |-> es[i].t]]]
+          ELSE [ok |-> TRUE, rec |-> [t |-> es[i].t]]])
 
 RECURSIVE IterFrom(_, _, _, _, _)
 IterFrom(kind, es, ems, i, acc) ==
@@ -143,7 +143,7 @@ HdrLookup(h, rm, a) ==
     IF TabSize(h.tenc) = 0 THEN PErr("UnsupportedPointerEncoding")
     ELSE IF ~rm[1].l.ok THEN PErr(rm[1].l.err)
     ELSE IF Len(rm) > 1 /\ PeIndirect(h.tenc) THEN PErr("UnsupportedIndirectPointer")
-    ELSE LET i == Lookup([j \in DOMAIN rm |-> rm[j].l.v], a)
+    ELSE LET i == Lookup(Tup([j \in DOMAIN rm |-> rm[j].l.v]), a)
          IN [ok |-> TRUE, i |-> i, k |-> rm[i].p.k, v |-> rm[i].p.v]
 
 (* EhHdrTable::fde_for_address: lookup, pointer_to_offset, fde_from_offset, *)
